@@ -100,7 +100,8 @@ def compare(kind, fam, x, eff, got):
             scale = np.maximum(np.abs(ref_b), 1e-300)
             err = np.abs(got_b - ref_b) / scale
             # quantiles near 0 of location-free families: absolute floor relative to the spread
-            bad = pin & ~((err <= 1e-8) | (np.abs(got_b - ref_b) <= 1e-13))
+            # (at the largest double below one a quantile may overflow to inf on both sides: equal infinities agree)
+            bad = pin & ~((err <= 1e-8) | (np.abs(got_b - ref_b) <= 1e-13) | (got_b == ref_b))
         else:
             err = np.abs(got_b - ref_b)
             tol = TOL_REL * np.abs(ref_b) + 1e-200  # below 1e-200 intermediate terms underflow on both sides
